@@ -35,6 +35,14 @@ def drop(wt):
     sh("git -C /repo worktree prune")
 
 
+def apply_patch(wt, patch):
+    rc, out = sh("git apply %s" % patch, cwd=wt)
+    if rc:  # context drifted (later fix: commits): retry with fuzz
+        rc, out2 = sh("patch -p1 -F3 --no-backup-if-mismatch < %s" % patch, cwd=wt)
+        out += out2
+    return rc, out
+
+
 def build_and_test(wt, runs=2):
     rc, out = sh("cmake -G Ninja -B _build -S . -DFETCHCONTENT_SOURCE_DIR_GOOGLETEST=/usr/src/googletest -DCMAKE_BUILD_TYPE=Release", cwd=wt)
     if rc:
@@ -81,7 +89,7 @@ def confirm(src, i, sid):
         res["steps"].append(["demo builds on unchanged tree", okd, msg])
         rc0, out0 = sh([wt + "/demo_base"], cwd=wt, timeout=600) if okd else (99, "")
         res["steps"].append(["demo passes without the change", rc0 == 0, out0[-600:]])
-        rc, out = sh("git apply %s" % os.path.abspath(patch), cwd=wt)
+        rc, out = apply_patch(wt, os.path.abspath(patch))
         res["steps"].append(["patch applies", rc == 0, out])
         okb, msg = build_and_test(wt, runs=2)
         res["steps"].append(["changed tree compiles and the stable suite passes (2 runs)", okb, msg])
@@ -89,6 +97,7 @@ def confirm(src, i, sid):
         rc1, out1 = sh([wt + "/demo_mut"], cwd=wt, timeout=600) if okd2 else (0, msg)
         res["steps"].append(["demo fails with the change", okd2 and rc1 != 0, out1[-800:]])
         touched = sh("git diff --name-only", cwd=wt)[1].split()
+        res["rediff"] = sh("git diff", cwd=wt)[1]
         res["touches_only_src_include"] = all(t.startswith(("src/", "include/")) for t in touched)
     finally:
         drop(wt)
@@ -96,11 +105,12 @@ def confirm(src, i, sid):
     if res["confirmed"]:
         dst = os.path.join(VERIF, "seeded", sid)
         os.makedirs(dst, exist_ok=True)
-        shutil.copy(patch, os.path.join(dst, "patch.diff"))
+        open(os.path.join(dst, "patch.diff"), "w").write(res["rediff"])   # relative to the current /repo HEAD
         shutil.copy(demo, os.path.join(dst, "demo.cpp"))
         meta.update(seed_id=sid, confirmed_by="tools/seedtool.py confirm (scratch worktree: baseline suite, demo PASS unchanged / FAIL changed, stable suite passes 2x with the change)",
                     confirm_log=[[s[0], s[1]] for s in res["steps"]], repo_head=sh("git -C /repo rev-parse --short HEAD")[1].strip())
         json.dump(meta, open(os.path.join(dst, "meta.json"), "w"), indent=1)
+    res.pop("rediff", None)
     print(json.dumps(res, indent=1)[:3000])
     return 0 if res["confirmed"] else 1
 
@@ -112,7 +122,7 @@ def run(sid, props):
     wt = worktree(sid)
     results = {}
     try:
-        rc, out = sh("git apply %s" % os.path.join(d, "patch.diff"), cwd=wt)
+        rc, out = apply_patch(wt, os.path.join(d, "patch.diff"))
         if rc:
             print("patch does not apply:", out); return 2
         for p in props:
